@@ -56,8 +56,38 @@ class Ctx:
         self.mir_info = {}
 
     # ---------------- program / executor
+    def dev_profile(self):
+        """context manager: inside it, executors run on the MIR of the dev profile (debug assertions compiled in), as `cargo test` and debug builds run it"""
+        import contextlib
+
+        @contextlib.contextmanager
+        def cm():
+            saved = (self._prog, getattr(self, '_src', None), self._run_cache, getattr(self, '_dbg', False))
+            other = getattr(self, '_dev_saved', None)
+            self._prog, self._src, self._run_cache = other if other else (None, None, {})
+            self._dbg = True
+            try:
+                yield self
+            finally:
+                self._dev_saved = (self._prog, self._src, self._run_cache)
+                self._prog, self._src, self._run_cache, self._dbg = saved
+        return cm()
+
     @property
     def prog(self):
+        if self._prog is None:
+            mir, info = mirdump.get_mir(debug_assertions=getattr(self, '_dbg', False))
+            if getattr(self, '_dbg', False):
+                self.mir_info_dev = info
+            else:
+                self.mir_info = info
+            self._prog = mirparse.Program(mir)
+            self._src = srcinfo.SrcInfo(REPO)
+            return self._prog
+        return self._prog
+
+    @property
+    def _unused_prog(self):
         if self._prog is None:
             mir, info = mirdump.get_mir()
             self.mir_info = info
